@@ -495,6 +495,12 @@ def make_objects(D):
         objs["MultiLevelTransform[linear]"] = lambda: S.MultiLevelTransform(S.HomogeneousTransform(g(), params=torch.eye(D, D + 1).unsqueeze(0)),
                                                                              S.HomogeneousTransform(g(), params=torch.eye(D, D + 1).unsqueeze(0)))
         objs["MultiLevelTransform[ffd]"] = lambda: S.MultiLevelTransform(S.FreeFormDeformation(g()), S.FreeFormDeformation(g(), stride=2)).update()
+    # transformers wrap a transform: condition(...) must leave the wrapped transform of the receiver as it was
+    if hasattr(S, "ImageTransformer"):
+        objs["ImageTransformer"] = lambda: S.ImageTransformer(S.Translation(g(), params=torch.full((1, D), 0.1)).update())
+        objs["ImageTransformer[composite]"] = lambda: S.ImageTransformer(S.RigidTransform(g()).update())
+    if hasattr(S, "PointSetTransformer"):
+        objs["PointSetTransformer"] = lambda: S.PointSetTransformer(S.Translation(g()).update(), g())
     return objs, sp
 
 
